@@ -21,7 +21,9 @@ hand-written GENERAL_PROBES.  They never touch a KNOWN defect class of the C bac
 operands, no abs() has floor() inside, no comparison has the same name on both sides (sympy would fold it to a bare true / false); a
 general model whose loaded expressions nevertheless contain a bare boolean constant is skipped (counted in info).  A failure of a
 general model therefore always means something else is wrong: C02:value-mismatch:<construct>, C02:scheme-mismatch:<scheme>,
-C02:init:value-mismatch, C02:compile-error:..., C02:c-crash:no-integer-quotient.  (2) DEDICATED probe models (DEFECT_PROBES), one line
+C02:init:value-mismatch, C02:compile-error:..., C02:c-crash:no-integer-quotient (a killed worker is C02:c-crash:integer-division-by-zero
+only when the reference, re-evaluated with C int semantics for integer-literal quotients, divides by zero where the text is defined;
+C02:c-crash:integer-quotient-territory for any other crash of a model with an integer-literal quotient; no signature is a prefix of another).  (2) DEDICATED probe models (DEFECT_PROBES), one line
 each, for the known classes: integer-literal quotients / exponents (also in parameter defaults), Mod / fmod with negative operands,
 abs() of integer-valued expressions, Mod of two integer-valued operands, bare boolean constants.  Whether a text is in known-defect
 territory is decided from the text itself (modelgen.c_unsafe + boolean constants in the loaded expressions), so stored failures
